@@ -155,3 +155,6 @@ class TEBD(TTNTimeEvolution):
         """
         for unitary in self.exponents:
             self._apply_one_trotter_step(unitary)
+        # The gates do not preserve a canonical form, so a recorded
+        # orthogonality center is not valid anymore.
+        self.state.orthogonality_center_id = None
